@@ -179,3 +179,8 @@ def run(repo, rep):
         sat = [n_ for n_ in f.body if isinstance(n_, ast.If) and "a == b" in norm(n_.test) and ".min" in norm(n_.test)]
         rep.check(len(sat) == 1 and ".max" in norm(sat[0].body[0]), "C19-c", f"{FP}:{fn}", "min * min saturates to max", "")
     rep.floor("C19-c", 14)
+    rep.clause("C19-d", "constant folding and table generation divide float32 scales only after widening them to double (reference precision) [rule shared with C09-b]")
+    from . import c09
+
+    with rep.borrow({"C09-b": "C19-d"}):
+        c09.run(repo, rep)
